@@ -558,13 +558,13 @@ class SymSeq:
     def __getitem__(self, i):
         n = _real_len(self.elems)
         if _real_isinstance(i, slice):
-            if i.step is not None:
-                raise Refuse('slice with a step')
+            if i.step is not None and self.tail is not None:
+                raise Refuse('slice with a step of bytes of unknown length')
             a, b = i.start, i.stop
             if _real_isinstance(a, SymInt) or _real_isinstance(b, SymInt):
                 raise Refuse('slice of received bytes at a symbolic position')
             if self.tail is None:
-                return SymSeq(self.elems[a:b])
+                return SymSeq(self.elems[i])
             a = 0 if a is None else a
             if a < 0 or (b is not None and b < 0):
                 raise Refuse('slice from the end of received bytes of unknown length')
@@ -844,7 +844,7 @@ def coq_type(ty):
         return '(list Z)'
     if ty == 'T':
         return 'string'
-    if ty[0] == 'seq':
+    if ty[0] in ('seq', 'seqx'):
         return 'bytes'
     if ty[0] == 'opt':
         return '(option %s)' % coq_type(ty[1])
@@ -906,11 +906,14 @@ def translate(spec):
             return cases(i + 1, actual + [SymBytes([('var', E('var', (n,), 'Y'))])])
         if ty == 'B':
             return 'if %s\n%sthen %s\n%selse %s' % (n, pad, cases(i + 1, actual + [True]), pad, cases(i + 1, actual + [False]))
-        if _real_isinstance(ty, tuple) and ty[0] == 'seq':
+        if _real_isinstance(ty, tuple) and ty[0] in ('seq', 'seqx'):
             K, minlen = ty[1], ty[2]
             arms = []
             for ln in range(0, K + 1):
                 names = ['%s_%d' % (n, j) for j in range(ln)]
+                if ln == K and ty[0] == 'seqx':
+                    arms.append('%s| _ => fail EOutOfFuel (* longer than anything the translated function is given *)' % pad)
+                    continue
                 if ln < K:
                     pat = '[' + '; '.join(names) + ']'
                     val = SymSeq([SymInt(E('var', (x,), 'Z')) for x in names])
